@@ -158,3 +158,13 @@ Example c07_flags_example :
   let f := fl_set prob true (fl_set window true 0) in
   (f, fl_is window f, fl_is prob f, fl_is window (fl_set window false f), fl_is prob (fl_set window false f)) = (66, true, true, false, true).
 Proof. exact flags_example. Qed.
+
+(* the guard "raw climb amount within int64" of c07_step / c07_invariant is met by every amount the code can compute:
+   Model/Climber.v is climb()'s float32 arithmetic (Flocq's IEEE 754 binary32, compared bit for bit with the real climb()
+   on every run); whatever the samples, int(amount) stays within +-2^61.  This theorem alone in this file rests on the
+   standard library's axioms of the real numbers (through Flocq's specification of rounding). *)
+From Verif Require Import Model.Climber Proof.ClimberP.
+Theorem c07_climb_amounts_meet_guard : forall shape cap samples a, 1 <= cap < 2 ^ 61 ->
+  In a (amounts shape (climber_new cap) samples) -> - two63 < a < two63.
+Proof. exact climb_amounts_meet_guard. Qed.
+Print Assumptions c07_climb_amounts_meet_guard.
